@@ -563,3 +563,14 @@ func BoundIndices(e string) string {
 	}
 	return hugeLit.ReplaceAllString(e, "7")
 }
+
+var propsIdx = regexp.MustCompile(`\d{3,}`)
+
+// BoundInput applies the same bound to inputs whose text holds indices itself: a numeric component of a
+// properties key (`a.1020 = x`) asks for a sequence that long.
+func BoundInput(format, input string) string {
+	if format == "props" || format == "properties" {
+		return propsIdx.ReplaceAllString(input, "7")
+	}
+	return input
+}
